@@ -29,7 +29,7 @@ structure Core (d : Dag) (s : S) (hot : Option Nat) : Prop where
   running : ∀ i, i ∈ s.running ↔ s.st i = .out
   runNodup : s.running.Nodup
   valDone : ∀ i, s.st i = .done → s.out i = .app i (fetchArgs d s.out i)
-  valNot  : ∀ i, s.st i ≠ .done → s.out i = .nd
+  valNot  : ∀ i, s.st i ≠ .done → s.out i = d.out0 i
   valOut  : ∀ i, s.st i = .out → s.args i = fetchArgs d s.out i
   failedFails : ∀ i, s.st i = .failed → d.fails i = true
   errsFailed  : ∀ i ∈ s.errs, s.st i = .failed
